@@ -31,7 +31,8 @@ JudgeA(r, i) ==
                d \in {"card:text-match(" \o TmName(r.tm) \o "):" \o Rel(r.tm, v)
                         \o (IF NonAscii(v) \/ NonAscii(r.tm.needle) THEN ":non-ascii" ELSE "")
                         \o (IF v \in want THEN ":missed" ELSE ":extra")
-                        : v \in (want \ got) \cup (got \ want)}}
+                        : v \in {x \in (want \ got) \cup (got \ want) :
+                                   ~(r.tm.coll = "i;unicode-casemap" /\ HasSpecial(x))}}}
 
 PfName(pf) ==
     pf.name \o (IF pf.nd THEN "-is-not-defined" ELSE "") \o "[" \o pf.test \o "]"
